@@ -15,7 +15,8 @@ func (*inArray) Exit(node *Node) {
 		if n.Operator == "in" || n.Operator == "not in" {
 			if array, ok := n.Right.(*ArrayNode); ok {
 				if len(array.Nodes) > 0 {
-					t := n.Left.Type()
+					var t reflect.Type
+					t = n.Left.Type()
 					if t == nil || t.Kind() != reflect.Int {
 						// This optimization can be only performed if left side is int type,
 						// as runtime.in func uses reflect.Map.MapIndex and keys of map must,
@@ -41,6 +42,11 @@ func (*inArray) Exit(node *Node) {
 					}
 
 				string:
+					// The string-set lookup needs a string key: any other left operand
+					// would make reflect.Value.MapIndex panic at run time.
+					if t == nil || t.Kind() != reflect.String {
+						return
+					}
 					for _, a := range array.Nodes {
 						if _, ok := a.(*StringNode); !ok {
 							return
